@@ -685,8 +685,8 @@ pub fn run(ctx: &Ctx) -> Report {
     // manager), right-linear, left-linear, balanced, and balanced over a scrambled labelling
     let mut big_trees: Vec<VT> = Vec::new();
     if !disabled("bigvtrees") {
-        use crate::props::sddmid::{balanced, left_linear, right_linear};
-        for &n in ctx.tier.pick(vec![33usize, 65, 129, 130, 200, 256, 257], vec![17, 31, 32, 33, 63, 64, 65, 127, 128, 129, 130, 200, 255, 256, 257, 300]).iter() {
+        use crate::props::sddmid::{balanced, left_linear, mixed, right_linear};
+        for &n in ctx.tier.pick(vec![11usize, 37, 65, 100, 129, 130, 257], vec![11, 13, 17, 31, 32, 33, 37, 63, 64, 65, 90, 100, 127, 128, 129, 130, 200, 255, 256, 257, 300]).iter() {
             let id: Vec<usize> = (0..n).collect();
             let scr: Vec<usize> = (0..n).map(|i| (i * 7 + 3) % n).collect();
             let scr_ok = {
@@ -697,7 +697,11 @@ pub fn run(ctx: &Ctx) -> Report {
             big_trees.push(right_linear(&id));
             big_trees.push(left_linear(&id));
             big_trees.push(balanced(&id));
+            big_trees.push(mixed(&id));
             if scr_ok {
+                if ctx.tier == Tier::Thorough {
+                    big_trees.push(mixed(&scr));
+                }
                 big_trees.push(balanced(&scr));
             }
         }
